@@ -148,6 +148,10 @@ def _drop_empty_spec_constants(tree):
             vals[:] = merged
             if len(vals) >= 2 and isinstance(vals[-1], ast.Constant) and vals[-1].value == "" and isinstance(vals[-2], ast.FormattedValue):
                 vals.pop()
+            # ... and an empty one in front of a nested field that follows the line break ending a single-quoted spec (f"{f:\n{w}}"): the
+            # empty FSTRING_MIDDLE its tokenizer emits at the line break becomes a Constant('') (alone, f"{f:\n}", it is dropped by CPython itself)
+            if len(vals) >= 2 and isinstance(vals[0], ast.Constant) and vals[0].value == "" and isinstance(vals[1], ast.FormattedValue):
+                vals.pop(0)
 
 
 def raw_spec_escape_quirk(ptoks):
